@@ -529,7 +529,7 @@ impl Prop for C11 {
         "C11"
     }
     fn rule(&self) -> &'static str {
-        "generated unit tables: 1-4 units (versions 2-5 x 32/64-bit x address size 4/8, one byte order per section set), trees of 1-19 entries with generated parents (occasionally a wide unit of 28-71 entries, most of them children of the root), base-type entries anywhere among the root's children, ids reserved early and added later, ids reserved and never added (negative case), sibling flags on/off, 0-6 attributes per entry over every write::AttributeValue variant with boundary payloads (block lengths around 127/128, LEB128 size steps, implicit constants around the SLEB/ULEB size difference, duplicate strings in .debug_str/.debug_line_str, enum wrappers, file indices into a line program, expressions incl. nested entry values and, in attributes and in location lists, the entry-referencing operations call4 / call_ref / implicit_pointer / GNU_variable_value / GNU_parameter_ref to entries of any unit), temporary children (with a subtree) added before a generated entry and removed again with delete_child, in-unit references forward and backward, cross-unit references in both directions, range and location lists valid for the unit's encoding. Oracle: the model itself: the output is read back with gimli::read and compared by meaning: same tags, nesting, attribute names in order, reference targets by identity marker, strings by content, lists by resolved ranges, expressions by decoded operations, sibling pointers designate the next sibling; unencodable requests must be refused. The writer's own offset-prediction debug assertions fire as panics in the dev profile. Non-trivial = >=2 units with a cross-unit and a forward in-unit reference and a variable-size attribute; distinct by choice string. Later additions: a relocatable-object mode (symbolic addresses); file tables with embedded source read back; DwarfUnit against Dwarf with one unit (byte-identical sections); the accessors of the writing interface on the built structure and edits that cancel out; location lists under every list-valued attribute name; empty expressions in list entries."
+        "generated unit tables: 1-4 units (versions 2-5 x 32/64-bit x address size 4/8, one byte order per section set), trees of 1-19 entries with generated parents (occasionally a wide unit of 28-71 entries, most of them children of the root), base-type entries anywhere among the root's children, ids reserved early and added later, ids reserved and never added (negative case), sibling flags on/off, 0-6 attributes per entry over every write::AttributeValue variant with boundary payloads (block lengths around 127/128, LEB128 size steps, implicit constants around the SLEB/ULEB size difference, duplicate strings in .debug_str/.debug_line_str, enum wrappers, file indices into a line program, expressions incl. nested entry values and, in attributes and in location lists, the entry-referencing operations call4 / call_ref / implicit_pointer / GNU_variable_value / GNU_parameter_ref to entries of any unit), temporary children (with a subtree) added before a generated entry and removed again with delete_child, in-unit references forward and backward, cross-unit references in both directions, range and location lists valid for the unit's encoding. Oracle: the model itself: the output is read back with gimli::read and compared by meaning: same tags, nesting, attribute names in order, reference targets by identity marker, strings by content, lists by resolved ranges, expressions by decoded operations, sibling pointers designate the next sibling; unencodable requests must be refused. The writer's own offset-prediction debug assertions fire as panics in the dev profile. Non-trivial = >=2 units with a cross-unit and a forward in-unit reference and a variable-size attribute; distinct by choice string. Later additions: a relocatable-object mode (symbolic addresses); file tables with embedded source read back; DwarfUnit against Dwarf with one unit (byte-identical sections); the accessors of the writing interface on the built structure and edits that cancel out; location lists under every list-valued attribute name; empty expressions in list entries. Round-8 additions: the sibling pointer equals the position found by walking the subtree; version 5 units with a version 4 line program (file indices follow the program's version)."
     }
     fn assumptions(&self) -> Vec<&'static str> {
         vec![
